@@ -8,6 +8,7 @@ import WrglModel.Driver.C06
 import WrglModel.Driver.C19
 import WrglModel.Driver.C01
 import WrglModel.Driver.C20
+import WrglModel.Driver.C15
 open Lean Wrgl.Drv
 
 def dispatch (prop op : String) (input impl : Json) : Except String Json :=
@@ -20,6 +21,7 @@ def dispatch (prop op : String) (input impl : Json) : Except String Json :=
   | "C02" => handleC02 op input impl
   | "C03" => handleC03 op input impl
   | "C20" => handleC20 op input impl
+  | "C15" => handleC15 op input impl
   | _ => .error s!"unknown property {prop}"
 
 def handleLine (line : String) : Json :=
